@@ -217,6 +217,9 @@ func (g *Gen) advDest(self []byte) []byte {
 		a := world.UserAddr(60+g.R.Intn(4), uint32(g.R.Intn(int(g.W.Cfg.NumShards))))
 		return a
 	}
+	if len(g.W.U.DNS) == 0 {
+		return g.W.U.MetaAddrs[0]
+	}
 	return g.W.U.DNS[0]
 }
 
@@ -387,9 +390,28 @@ func (g *Gen) build(fn string, args [][]byte) string {
 	b := txDataBuilder.NewBuilder()
 	b.Func(fn)
 	for _, a := range args {
-		b.Bytes(a)
+		minimal := len(a) == 0 || a[0] != 0
+		switch k := g.R.Intn(6); {
+		case k == 0 && minimal && len(a) <= 7:
+			b.Int64(new(big.Int).SetBytes(a).Int64())
+		case k == 1 && minimal && len(a) <= 3:
+			b.Int(int(new(big.Int).SetBytes(a).Int64()))
+		case k == 2 && minimal:
+			b.BigInt(new(big.Int).SetBytes(a))
+		case k == 3 && len(a) == 1:
+			b.Byte(a[0])
+		case k == 4:
+			b.Str(string(a))
+		default:
+			b.Bytes(a)
+		}
 	}
-	return b.ToString()
+	data := b.ToString()
+	g.W.CheckBuilt(fn, args, data)
+	if string(b.ToBytes()) != data {
+		g.W.CheckBuilt(fn, args, string(b.ToBytes()))
+	}
+	return data
 }
 
 func (g *Gen) tx(snd, rcv []byte, fn string, args [][]byte, gas uint64, ct int) *world.TxJSON {
